@@ -346,6 +346,26 @@ def v1_edit(kind, text, rng, k=2):
 # canonical form of a parse result (modulo source positions and source_code)
 
 
+def _expr_tokens(src):
+    """Colang 2.x keeps the RAW source text of expressions (`expression` of assignments/conditions,
+    the values of `arguments`); they are evaluated later as Python-like expressions, so a
+    multi-line expression carries the layout characters and comments between its tokens.  Like `source_code` this is source text: it is compared as its
+    token sequence (comments, line breaks and blanks between tokens dropped)."""
+    import io
+    import tokenize
+
+    try:
+        toks = []
+        for t in tokenize.generate_tokens(io.StringIO("(" + src + ")").readline):
+            if t.type in (tokenize.COMMENT, tokenize.NL, tokenize.NEWLINE, tokenize.INDENT, tokenize.DEDENT,
+                          tokenize.ENDMARKER):
+                continue
+            toks.append(t.string)
+        return toks[1:-1]
+    except Exception:
+        return src
+
+
 def canon(x):
     from nemoguardrails.colang.v2_x.lang.utils import dataclass_to_dict
 
@@ -353,7 +373,17 @@ def canon(x):
 
     def w(v):
         if isinstance(v, dict):
-            return {str(k): w(u) for k, u in sorted(v.items(), key=lambda kv: str(kv[0])) if k not in POS_KEYS}
+            out = {}
+            for k, u in sorted(v.items(), key=lambda kv: str(kv[0])):
+                if k in POS_KEYS:
+                    continue
+                if k == "expression" and isinstance(u, str):
+                    out[str(k)] = _expr_tokens(u)
+                elif k == "arguments" and isinstance(u, dict):
+                    out[str(k)] = {str(a): (_expr_tokens(x) if isinstance(x, str) else w(x)) for a, x in u.items()}
+                else:
+                    out[str(k)] = w(u)
+            return out
         if isinstance(v, (list, tuple)):
             return [w(u) for u in v]
         if isinstance(v, (str, int, float, bool)) or v is None:
@@ -591,13 +621,15 @@ def v1pre_case(content):
         return {"skip": "other whitespace characters"}
     raw = content.split("\n")
     has_cont = False
+    consumed = False          # this physical line is appended to the previous one by the join
     for l in raw:
         s = l.strip()
-        if '"""' in s or (s.startswith('"') and not s.endswith('"')):
+        if '"""' in s or (not consumed and s.startswith('"') and not s.endswith('"')):
             return {"skip": "multi-line construct"}
-        if s.endswith("\\") or s.endswith(" or") or s == "or":
+        consumed = s.endswith("\\") or s.endswith(" or") or (consumed and s == "or")
+        if consumed:
             has_cont = True
-    if has_cont and any("#" in l and not l.strip().startswith("#") for l in raw):
+    if has_cont and any("#" in re.sub(r'"[^"]*"', "", l) and not l.strip().startswith("#") for l in raw):
         return {"skip": "end-of-line comment in a text with continuations"}     # word_split is not modelled
     try:
         got = get_numbered_lines(content)
@@ -608,7 +640,7 @@ def v1pre_case(content):
     exp = []
     for g in got:
         txt = g["text"]
-        comparable = has_cont or "#" not in raw[g["number"] - 1]
+        comparable = "#" not in re.sub(r'"[^"]*"', "", raw[g["number"] - 1]) if not has_cont else True
         exp.append([g["number"], g["indentation"], txt if comparable else None])
     return {"raw": raw, "expected": exp}
 
@@ -678,12 +710,20 @@ def worker_main(jobfile, outfile):
                     else:
                         # minimise: a single insertion that already changes the result (v2)
                         small = ed
-                        if ins:
+                        if ins and kind_e != "scale":     # a scale edit is only meaningful as a whole
                             for one in ins:
                                 e1 = apply_inserts(content, [one])
                                 if parse_canon(e1, version) != base:
                                     small = e1
                                     break
+                        if version == "1.0" and kind_e in ("trailing_ws", "trailing_tab"):
+                            a, b_ = content.split("\n"), ed.split("\n")
+                            for j in range(min(len(a), len(b_))):     # the edit of ONE physical line that already matters
+                                if a[j] != b_[j]:
+                                    e1 = "\n".join(a[:j] + [b_[j]] + a[j + 1:])
+                                    if parse_canon(e1, version) != base:
+                                        small = e1
+                                        break
                         res["edits"].append([kind_e, k, "DIFF", {"edited": small, "got": parse_canon(small, version)}])
             emit(i, res)
         elif kind == "lexdiff":
@@ -1300,6 +1340,14 @@ def run(tier, seed, replay=None):
         return ({i - a: r for i, r in p_res.items() if a <= i < a + n}, [i - a for i in p_hangs if a <= i < a + n],
                 [(i - a, e) for i, e in p_crashed if a <= i < a + n])
 
+    for c in explicit:
+        sys.path.insert(0, C.REPO)
+        base, got = parse_canon(c["content"], c["version"]), parse_canon(c["explicit_edit"], c["version"])
+        if base[0] == "ok" and got != base:
+            sig = classify_layout_diff(c["version"], c["edit_kind"], c["content"], c["explicit_edit"])
+            out.findings.append(C.Finding(sig, f"replay: {c['edit_kind']} edit changes the parse result ({got[:2]})",
+                                          {"kind": "layout", "version": c["version"], "edit": c["edit_kind"],
+                                           "content": c["content"], "edited": c["explicit_edit"], "got": got}))
     lay_res, lay_hangs, lay_crashed = pooled("layout")
     lay_stats = {"programs_ok": 0, "programs_rejected": 0, "edits_equal": 0, "edits_same_text": 0, "edits_diff": 0}
     lay_by_kind = {}
@@ -1329,14 +1377,6 @@ def run(tier, seed, replay=None):
                 out.findings.append(C.Finding(sig, f"{c['origin']}: {kind_e} edit changes the parse result ({info['got'][:2]})",
                                               {"kind": "layout", "version": c["version"], "edit": kind_e, "k": k,
                                                "content": c["content"], "edited": info["edited"], "got": info["got"]}))
-    for c in explicit:
-        sys.path.insert(0, C.REPO)
-        base, got = parse_canon(c["content"], c["version"]), parse_canon(c["explicit_edit"], c["version"])
-        if base[0] == "ok" and got != base:
-            sig = classify_layout_diff(c["version"], c["edit_kind"], c["content"], c["explicit_edit"])
-            out.findings.append(C.Finding(sig, f"replay: {c['edit_kind']} edit changes the parse result ({got[:2]})",
-                                          {"kind": "layout", "version": c["version"], "edit": c["edit_kind"],
-                                           "content": c["content"], "edited": c["explicit_edit"], "got": got}))
     for i in lay_hangs:
         c = lay_cases[i]
         out.findings.append(C.Finding(f"v{c['version'][0]}:parser-hang", f"{c['origin']}: parse did not finish within the timeout",
